@@ -52,9 +52,13 @@ def fSplitAtPoint (B : Nat) (dub : Int → Nat) (x : FBigM) : FBigM × FBigM :=
     let hl := splitDigits B x.repr.signif shift
     (⟨FRepr.new B hl.1 0, x.prec - shift⟩, ⟨FRepr.new B hl.2 x.repr.exp, shift⟩)
 
-/-- `FBig::fract` -/
+/-- `FBig::fract`.  As it is, the fraction is rebuilt from `split_at_point_internal`; on the
+    known-smaller-than-one path that is the number itself with its own precision.  The repair of
+    `split_at_point_internal` (third component `-exponent`) is accompanied by an early return of the
+    number itself on that path, so that `fract` keeps agreeing with `split_at_point`. -/
 def fFract (fixed : Bool) (B : Nat) (dub : Int → Nat) (x : FBigM) : FBigM :=
   if x.repr.exp ≥ 0 then FBigM.zero
+  else if fixed ∧ smallerThanOne dub x.repr then x
   else
     let s := splitAtPointInternal fixed B dub x
     ⟨FRepr.new B s.2.1 x.repr.exp, s.2.2⟩
@@ -66,7 +70,7 @@ def fCeil (fixed : Bool) (B : Nat) (c : Coarse) (dub : Int → Nat) (x : FBigM) 
   else
     let s := splitAtPointInternal fixed B dub x
     let r := roundFract B .up c s.1 s.2.1 s.2.2
-    ⟨FRepr.new B (s.1 + r.toInt) 0, x.prec - s.2.2⟩
+    ⟨FRepr.new B (s.1 + rInt r) 0, x.prec - s.2.2⟩
 
 /-- `FBig::floor` -/
 def fFloor (fixed : Bool) (B : Nat) (c : Coarse) (dub : Int → Nat) (x : FBigM) : FBigM :=
@@ -75,7 +79,7 @@ def fFloor (fixed : Bool) (B : Nat) (c : Coarse) (dub : Int → Nat) (x : FBigM)
   else
     let s := splitAtPointInternal fixed B dub x
     let r := roundFract B .down c s.1 s.2.1 s.2.2
-    ⟨FRepr.new B (s.1 + r.toInt) 0, x.prec - s.2.2⟩
+    ⟨FRepr.new B (s.1 + rInt r) 0, x.prec - s.2.2⟩
 
 /-- `FBig::round` (ties away from zero) -/
 def fRound (fixed : Bool) (B : Nat) (c : Coarse) (dub : Int → Nat) (x : FBigM) : FBigM :=
@@ -84,7 +88,7 @@ def fRound (fixed : Bool) (B : Nat) (c : Coarse) (dub : Int → Nat) (x : FBigM)
   else
     let s := splitAtPointInternal fixed B dub x
     let r := roundFract B .halfAway c s.1 s.2.1 s.2.2
-    ⟨FRepr.new B (s.1 + r.toInt) 0, x.prec - s.2.2⟩
+    ⟨FRepr.new B (s.1 + rInt r) 0, x.prec - s.2.2⟩
 
 /-- `FBig::to_int` (rounding mode of the type) -/
 def fToInt (fixed : Bool) (B : Nat) (m : Mode) (c : Coarse) (dub : Int → Nat) (x : FBigM) : Rounded Int :=
@@ -92,13 +96,13 @@ def fToInt (fixed : Bool) (B : Nat) (m : Mode) (c : Coarse) (dub : Int → Nat) 
   else
     let s := splitAtPointInternal fixed B dub x
     let adj := roundFract B m c s.1 s.2.1 s.2.2
-    (s.1 + adj.toInt, some adj)
+    (s.1 + rInt adj, some adj)
 
 /-- `Repr::to_int` (always toward zero) -/
 def reprToInt (B : Nat) (dub : Int → Nat) (r : FRepr) : Rounded Int :=
   if r.exp ≥ 0 then (r.signif * ((B ^ r.exp.toNat : Nat) : Int), none)
-  else if smallerThanOne dub r then (0, some .noOp)
-  else (shrDigits B r.signif (-r.exp).toNat, some .noOp)
+  else if smallerThanOne dub r then (0, some .NoOp)
+  else (shrDigits B r.signif (-r.exp).toNat, some .NoOp)
 
 /-- `FBig::with_precision` -/
 def fWithPrecision (B : Nat) (m : Mode) (c : Coarse) (x : FBigM) (p : Nat) : Rounded FBigM :=
